@@ -94,6 +94,7 @@ type c35Node struct {
 	log                   []string
 	nRepl, nFill          int
 	nontrivial            bool
+	readding              bool
 	nProposals, nProposed int
 }
 
@@ -132,6 +133,18 @@ func (n *c35Node) onChain(h common.Uint256) bool {
 }
 
 func short(h common.Uint256) string { return h.ToHexString()[:6] }
+
+// uniform draws an (almost exactly) uniform integer in [0, n): rapid's integer generators are
+// deliberately biased towards small values, which would distort action weights and percentages.
+func uniform(t *rapid.T, n int, label string) int {
+	u := 0
+	for i := 0; i < 10; i++ {
+		if rapid.Bool().Draw(t, label) {
+			u |= 1 << i
+		}
+	}
+	return u * n / 1024
+}
 
 // ---------------------------------------------------------------------------------------------
 // transactions
@@ -272,7 +285,7 @@ func (n *c35Node) verifyAndQueue(tx *types.Transaction) {
 		n.ev.Class("stateful:" + why)
 		return
 	}
-	if n.p.async && rapid.IntRange(0, 99).Draw(n.t, "defer") < 35 {
+	if n.p.async && uniform(n.t, 100, "defer") < 30 {
 		n.pending = append(n.pending, v)
 		n.ev.Class("verified:deferred")
 		n.logf("(defer %s@%d)", short(tx.Hash()), v.VerifiedHeight)
@@ -347,7 +360,7 @@ func (n *c35Node) deliver(v *tc.VerifiedTx) {
 			n.fail("replaced tx %s (sender %d nonce %d) is still in the pool after %s took its place", old.hash.ToHexString(), si, tx.Nonce, h.ToHexString())
 		}
 		n.replaced[old.hash] = true
-	} else if old == nil && gapBefore {
+	} else if old == nil && gapBefore && !n.readding {
 		n.nFill++
 		n.ev.Class("deliver:gapfill")
 		n.logf("(FILL s%d n%d)", si, tx.Nonce)
@@ -410,6 +423,31 @@ func (n *c35Node) propose(tag string) []*types.Transaction {
 	for _, tx := range old {
 		n.modelRemove(tx)
 		n.ev.Class("pool:expired")
+	}
+	// diagnostic only (not asserted, the property speaks about what reaches a block): does the pool hand
+	// over a sender's run with a hole although nothing of that sender expired in this call?
+	{
+		expired := map[common.Address]bool{}
+		for _, tx := range old {
+			if tx.IsEipTx() {
+				expired[tx.Payer] = true
+			}
+		}
+		last := map[common.Address]uint64{}
+		dupP := map[common.Uint256]bool{}
+		for _, e := range valid {
+			if dupP[e.Tx.Hash()] {
+				n.ev.Class("poolstage:duplicate-candidate")
+			}
+			dupP[e.Tx.Hash()] = true
+			if !e.Tx.IsEipTx() {
+				continue
+			}
+			if prev, ok := last[e.Tx.Payer]; ok && uint64(e.Tx.Nonce) != prev+1 && !expired[e.Tx.Payer] {
+				n.ev.Class("poolstage:hole-in-candidate-run")
+			}
+			last[e.Tx.Payer] = uint64(e.Tx.Nonce)
+		}
 	}
 	nonceCtx := make(map[common.Address]uint64)
 	var out []*types.Transaction
@@ -478,7 +516,9 @@ func (n *c35Node) propose(tag string) []*types.Transaction {
 	} else {
 		n.ev.Class("proposal:empty")
 	}
-	n.logf("%s@%d/%d%v", tag, height+1, validHeight, desc)
+	sorted := append([]string{}, desc...) // the order across senders depends on map iteration inside GetTxPool
+	sort.Strings(sorted)
+	n.logf("%s@%d/%d%v", tag, height+1, validHeight, sorted)
 
 	// getTxPool re-verifies what expired (asynchronously in the node; it cannot reach this proposal)
 	for _, tx := range old {
@@ -499,6 +539,7 @@ func (n *c35Node) cleanTransactionList(txs []*types.Transaction, height uint32) 
 			n.evm[si] = map[uint64]*c35Entry{}
 		}
 		n.native = map[common.Uint256]bool{}
+		n.readding = true // the pool is being refilled with what it held: not a submission filling a gap
 		for _, tx := range remain {
 			if !n.preExecCheck(tx) {
 				n.ev.Class("remain:preexec-failed")
@@ -506,6 +547,7 @@ func (n *c35Node) cleanTransactionList(txs []*types.Transaction, height uint32) 
 			}
 			n.reVerify(tx)
 		}
+		n.readding = false
 	}
 	n.resync()
 }
@@ -514,7 +556,7 @@ func (n *c35Node) cleanTransactionList(txs []*types.Transaction, height uint32) 
 func (n *c35Node) complete(b *types.Block) {
 	order := 0
 	if n.p.async {
-		order = rapid.IntRange(0, 5).Draw(n.t, "completion-order")
+		order = uniform(n.t, 8, "completion-order")
 	}
 	switch order {
 	case 4: // pool cleaned first, a proposal attempt in between
@@ -580,17 +622,17 @@ func (n *c35Node) pooledKeys() [][2]uint64 {
 }
 
 func (n *c35Node) actSubmitNew() {
-	si := rapid.IntRange(0, len(n.senders)-1).Draw(n.t, "sender")
+	si := uniform(n.t, len(n.senders), "sender")
 	base := n.accountNonce(n.senders[si].Address)
 	var nonce uint64
-	switch k := rapid.IntRange(0, 99).Draw(n.t, "nonce-kind"); {
+	switch k := uniform(n.t, 100, "nonce-kind"); {
 	case k < 45: // lowest free nonce: extends the run or fills its first gap
 		nonce = base
 		for n.evm[si][nonce] != nil {
 			nonce++
 		}
 	case k < 80:
-		nonce = base + uint64(rapid.IntRange(0, 6).Draw(n.t, "offset"))
+		nonce = base + uint64(uniform(n.t, 7, "offset"))
 	default: // beyond the highest pooled nonce: opens a gap
 		nonce = base + 1
 		for k := range n.evm[si] {
@@ -615,10 +657,10 @@ func (n *c35Node) actResubmit() {
 		n.actSubmitNew()
 		return
 	}
-	k := rapid.SampledFrom(ks).Draw(n.t, "pooled")
+	k := ks[uniform(n.t, len(ks), "pooled")]
 	si, nonce := int(k[0]), k[1]
 	old := n.evm[si][nonce]
-	kind := rapid.SampledFrom([]string{"lower", "equal", "bump", "bump+1", "+2%", "x2", "x10"}).Draw(n.t, "price-kind")
+	kind := []string{"lower", "equal", "bump", "bump+1", "+2%", "x2", "x10"}[uniform(n.t, 7, "price-kind")]
 	var price uint64
 	switch kind {
 	case "lower":
@@ -639,6 +681,9 @@ func (n *c35Node) actResubmit() {
 	default:
 		price = old.price * 10
 	}
+	if price > 1000000 { // keep the sum of all fees far below the funded balance: the property is not about balances
+		price = 1000000
+	}
 	tx := n.newEvmTx(si, nonce, price)
 	n.logf("R s%d n%d %s:p%d(old p%d) %s", si, nonce, kind, price, old.price, short(tx.Hash()))
 	n.ev.Class("act:resubmit:" + kind)
@@ -646,7 +691,7 @@ func (n *c35Node) actResubmit() {
 }
 
 func (n *c35Node) actNative() {
-	from := rapid.IntRange(0, len(n.natives)-1).Draw(n.t, "from")
+	from := uniform(n.t, len(n.natives), "from")
 	price := n.drawPrice()
 	tx := n.newNativeTx(from, (from+1)%len(n.natives), price)
 	n.logf("N p%d %s", price, short(tx.Hash()))
@@ -659,14 +704,14 @@ func (n *c35Node) actRebroadcast() {
 		n.actSubmitNew()
 		return
 	}
-	tx := n.created[rapid.IntRange(0, len(n.created)-1).Draw(n.t, "old-tx")]
+	tx := n.created[uniform(n.t, len(n.created), "old-tx")]
 	n.logf("B %s", short(tx.Hash()))
 	n.ev.Class("act:rebroadcast")
 	n.submit(tx)
 }
 
 func (n *c35Node) actAdvance() {
-	k := rapid.SampledFrom([]int{1, 1, 2, 3, 21, 30}).Draw(n.t, "empty-blocks")
+	k := []int{1, 1, 2, 3, 21, 30}[uniform(n.t, 6, "empty-blocks")]
 	n.logf("A+%d", k)
 	n.ev.Class("act:advance")
 	for i := 0; i < k; i++ {
@@ -679,7 +724,7 @@ func (n *c35Node) actDeliver() {
 		n.actSubmitNew()
 		return
 	}
-	i := rapid.IntRange(0, len(n.pending)-1).Draw(n.t, "pending")
+	i := uniform(n.t, len(n.pending), "pending")
 	v := n.pending[i]
 	n.pending = append(n.pending[:i:i], n.pending[i+1:]...)
 	n.logf("D %s@%d", short(v.Tx.Hash()), v.VerifiedHeight)
@@ -696,12 +741,12 @@ func (n *c35Node) actForeign() {
 	var txs []*types.Transaction
 	used := map[common.Uint256]bool{}
 	for si := range n.senders {
-		k := rapid.IntRange(0, 3).Draw(n.t, "run")
+		k := uniform(n.t, 4, "run")
 		base := n.accountNonce(n.senders[si].Address)
 		for j := 0; j < k; j++ {
 			nonce := base + uint64(j)
 			var tx *types.Transaction
-			src := rapid.IntRange(0, 99).Draw(n.t, "source")
+			src := uniform(n.t, 100, "source")
 			if e := n.evm[si][nonce]; e != nil && src < 55 {
 				tx = n.byHash[e.hash]
 			}
@@ -724,11 +769,16 @@ func (n *c35Node) actForeign() {
 	for h := range n.native {
 		nat = append(nat, h)
 	}
+	for _, p := range n.pending { // verified here, not yet in the pool, and already known to the other proposer
+		if !p.Tx.IsEipTx() {
+			nat = append(nat, p.Tx.Hash())
+		}
+	}
 	sort.Slice(nat, func(i, j int) bool { return bytes.Compare(nat[i][:], nat[j][:]) < 0 })
-	for j := rapid.IntRange(0, 2).Draw(n.t, "natives"); j > 0; j-- {
+	for j := uniform(n.t, 3, "natives"); j > 0; j-- {
 		var tx *types.Transaction
 		if len(nat) > 0 && rapid.Bool().Draw(n.t, "pooled-native") {
-			tx = n.byHash[nat[rapid.IntRange(0, len(nat)-1).Draw(n.t, "which")]]
+			tx = n.byHash[nat[uniform(n.t, len(nat), "which")]]
 		}
 		if tx == nil || n.onChain(tx.Hash()) || used[tx.Hash()] {
 			tx = n.newNativeTx(0, 1, n.drawPrice())
@@ -743,6 +793,31 @@ func (n *c35Node) actForeign() {
 	n.logf("F%v", d)
 	n.ev.Class("act:foreign-block")
 	n.commit(txs, false)
+}
+
+// actLateArrival: a tx verified here and still on its way to the pool is committed by another proposer
+// first, then arrives in the pool (the node's pipeline is asynchronous).
+func (n *c35Node) actLateArrival() {
+	var cands []int
+	for i, p := range n.pending {
+		if n.onChain(p.Tx.Hash()) {
+			continue
+		}
+		if !p.Tx.IsEipTx() || uint64(p.Tx.Nonce) == n.accountNonce(p.Tx.Payer) {
+			cands = append(cands, i)
+		}
+	}
+	if len(cands) == 0 {
+		n.actSubmitNew()
+		return
+	}
+	i := cands[uniform(n.t, len(cands), "late")]
+	v := n.pending[i]
+	n.pending = append(n.pending[:i:i], n.pending[i+1:]...)
+	n.logf("L %s@%d", short(v.Tx.Hash()), v.VerifiedHeight)
+	n.ev.Class("act:late-arrival")
+	n.commit([]*types.Transaction{v.Tx}, false)
+	n.deliver(v)
 }
 
 func (n *c35Node) step() {
@@ -763,14 +838,15 @@ func (n *c35Node) step() {
 		acts = append(acts,
 			wa{12, n.actDeliver},
 			wa{9, n.actForeign},
-			wa{2, func() { n.ev.Class("act:validator-restart"); n.logf("X"); n.iv.Clean() }},
+			wa{5, n.actLateArrival},
+			wa{4, func() { n.ev.Class("act:validator-restart"); n.logf("X"); n.iv.Clean() }},
 		)
 	}
 	total := 0
 	for _, a := range acts {
 		total += a.w
 	}
-	r := rapid.IntRange(0, total-1).Draw(n.t, "action")
+	r := uniform(n.t, total, "action")
 	for _, a := range acts {
 		if r < a.w {
 			a.f()
@@ -784,7 +860,7 @@ func (n *c35Node) step() {
 
 func c35Run(t *testing.T, p c35Profile, quick, thorough int) {
 	ev := harn.For("C35").
-		Rule("histories (avg 30 steps) over 3 funded EVM senders + 2 native senders on a fresh solo ledger with drawn initial account nonces (0-2): submit (lowest free nonce / account nonce+0..6 / beyond the highest pooled), resubmit a pooled nonce at lower/equal/1%-threshold/threshold+1/+2%/x2/x10 price, native txs, rebroadcast of any earlier tx, 1-30 empty blocks (validator window 20 => expiry), propose, propose+commit; async profiles add deferred delivery of verified txs, blocks of other proposers (pooled, deferred or unseen txs), completion handlers in either order with a proposal in between, validator restarts. Every proposal is checked. Non-trivial = history in which a proposal containing EVM txs was made after >=1 replacement and >=1 gap fill; distinct by the operation log").
+		Rule("histories (avg 30 steps) over 3 funded EVM senders + 2 native senders on a fresh solo ledger with drawn initial account nonces (0-2): submit (lowest free nonce / account nonce+0..6 / beyond the highest pooled), resubmit a pooled nonce at lower/equal/1%-threshold/threshold+1/+2%/x2/x10 price, native txs, rebroadcast of any earlier tx, 1-30 empty blocks (validator window 20 => expiry), propose, propose+commit; async profiles add deferred delivery of verified txs, blocks of other proposers (pooled, deferred or unseen txs), a deferred tx committed by another proposer just before it arrives, completion handlers in either order with a proposal in between, validator restarts. Every proposal is checked. Non-trivial = history in which a proposal containing EVM txs was made after >=1 replacement and >=1 gap fill; distinct by the operation log").
 		Assume("the synchronous mirrors of handleTransaction / stateful validator / handleRsp / getTxPool / makeProposal / cleanTransactionList in the harness match the node's plumbing (read from the source; the actor, event bus and worker pools are not started)").
 		Assume("the stateless validator (signatures) accepted every submitted tx: all generated txs are correctly signed")
 	ev.Floor("deliver:replaced", "deliver", 0.03)
@@ -841,7 +917,7 @@ func c35Run(t *testing.T, p c35Profile, quick, thorough int) {
 		var warm []*types.Transaction
 		var init []int
 		for si := range n.senders {
-			k := rapid.IntRange(0, 2).Draw(t, "initial-nonce")
+			k := uniform(t, 3, "initial-nonce")
 			init = append(init, k)
 			for j := 0; j < k; j++ {
 				warm = append(warm, n.newEvmTx(si, uint64(j), 1+p.floor))
@@ -887,19 +963,19 @@ func c35Run(t *testing.T, p c35Profile, quick, thorough int) {
 
 // node started with the CLI's default minimum gas price, every verified tx reaches the pool at once
 func TestC35_DefaultFloor(t *testing.T) {
-	c35Run(t, c35Profile{name: "floor500", floor: 500}, 40, 1300)
+	c35Run(t, c35Profile{name: "floor500", floor: 500}, 40, 1000)
 }
 
 // minimum gas price 0 (test networks), prices 1..150: integer effects of the 1% replacement rule
 func TestC35_SmallPrices(t *testing.T) {
-	c35Run(t, c35Profile{name: "small", floor: 0, small: true}, 40, 1300)
+	c35Run(t, c35Profile{name: "small", floor: 0, small: true}, 40, 1000)
 }
 
 // asynchronous pipeline: deferred deliveries, blocks of other proposers, interleaved completion handlers
 func TestC35_AsyncPipeline(t *testing.T) {
-	c35Run(t, c35Profile{name: "async500", floor: 500, async: true}, 40, 1300)
+	c35Run(t, c35Profile{name: "async500", floor: 500, async: true}, 40, 1000)
 }
 
 func TestC35_AsyncSmallPrices(t *testing.T) {
-	c35Run(t, c35Profile{name: "asyncsmall", floor: 0, small: true, async: true}, 40, 1300)
+	c35Run(t, c35Profile{name: "asyncsmall", floor: 0, small: true, async: true}, 40, 1000)
 }
